@@ -112,6 +112,8 @@ bool vp_hang_allowed;
 bool vp_in_child;
 int vp_side_child;
 uint64_t vp_sigmask;
+uint64_t vp_sigmask0; /* the caller's mask before start (set by the harness) */
+bool vp_sigmask0_valid;
 int vp_sigaction_calls, vp_chdir_calls, vp_sigprocmask_calls;
 int vp_calls_pipe, vp_calls_open, vp_calls_fork, vp_calls_total;
 int vp_kill_calls, vp_waitpid_calls, vp_poll_calls;
@@ -1386,7 +1388,12 @@ int vp_sigprocmask(int how, const void *set, void *old)
 int vp_pthread_sigmask(int how, const void *set, void *old)
 {
   vp_calls_total++;
-  if (vp_fault()) {
+  VP_TRACE("pthread_sigmask(how=%d, set=%016llx) mask=%016llx", how,
+           set ? (unsigned long long) *(const uint64_t *) set : 0ULL, (unsigned long long) vp_sigmask);
+  /* C12's own exclusion: the call that restores the caller's mask is not made to fail */
+  bool restoring = vp_sigmask0_valid && set != NULL && how == SIG_SETMASK &&
+                   *(const uint64_t *) set == vp_sigmask0;
+  if (!restoring && vp_fault()) {
     int e = vp_errno_any(false);
     vp_note_err(e);
     return e; /* returns the error, errno untouched */
